@@ -768,7 +768,11 @@ TWINS: list[Twin] = [
     Twin("sqlite: inclusive cursor in query_events", _PS, 'sql += " AND sequence > ?"', 'sql += " AND sequence >= ?"', "C16.R2"),
     Twin("sqlite: ORDER BY dropped", _PS, '        sql += " ORDER BY sequence"\n        if limit is not None:', "        if limit is not None:", "C16.R2"),
     Twin("sqlite: newest first", _PS, '        sql += " ORDER BY sequence"\n        if limit is not None:', '        sql += " ORDER BY sequence DESC"\n        if limit is not None:', "C16.R2"),
-    Twin("memory: subscription start index off by one", _PM, "if e.sequence <= after_sequence:\n                    cursor = i + 1", "if e.sequence < after_sequence:\n                    cursor = i + 1", "C16.R2"),
+    Twin("memory: subscription start index one too far", _PM, "if e.sequence <= after_sequence:\n                    cursor = i + 1", "if e.sequence <= after_sequence:\n                    cursor = i + 2", "C16.R2"),
+    Twin("memory: start index counts only the first event at or below the cursor", _PM, "if e.sequence <= after_sequence:\n                    cursor = i + 1", "if e.sequence <= after_sequence and cursor == 0:\n                    cursor = i + 1", None),
+    Twin("benign: start index one short (the delivery loop skips events at or below the cursor)", _PM, "if e.sequence <= after_sequence:\n                    cursor = i + 1", "if e.sequence < after_sequence:\n                    cursor = i + 1", None),
+    Twin("pre-fix shape: events at or below a cursor ahead of the log are delivered", _PM, "                if event.sequence <= after_sequence:\n", "                if False:\n", "C16.R3"),
+    Twin("delivery skip is not strict: the event at the cursor is delivered when the cursor is ahead of the log", _PM, "                if event.sequence <= after_sequence:\n", "                if event.sequence < after_sequence:\n", "C16.R3"),
     Twin("sqlite: subscription cursor off by one", _PS, "        cursor = after_sequence\n\n        while True:\n            async with condition:", "        cursor = after_sequence + 1\n\n        while True:\n            async with condition:", "C16.R2"),
     # ---- R3 breaking
     Twin("memory: cursor not advanced", _PM, "                yield event\n                cursor += 1\n", "                yield event\n", "C16.R3"),
